@@ -303,7 +303,7 @@ def check_callable(item, acc):
 # ---------------------------------------------------------------------------------------------
 # classes
 
-CLASS_STYLES = ["plain", "slots", "dataclass", "namedtuple", "no_init", "user_new", "init_args"]
+CLASS_STYLES = ["plain", "slots", "dataclass", "namedtuple", "no_init", "user_new", "init_args", "factory_new", "factory_new_init"]
 CHILDREN = [None, "plain_noinit", "plain_init_args", "dbc_noinit", "dbc_init_args", "dbc_new", "plain_new",
             "plain_grandchild", "dbc_grandchild", "plain_mixin_init"]  # constructor inherited by the class that is instantiated
 
@@ -337,6 +337,12 @@ def render_class(style, inv, child, dbc, contracts):
         elif style == "user_new":
             w.append("    def __new__(cls, *a, **k):\n        o = super().__new__(cls)\n        o.made = True\n        return o\n"
                      "    def __init__(self):\n        self.v = 1\n")
+        elif style in ("factory_new", "factory_new_init"):
+            # __new__ is a factory: for kind != 0 it returns an instance of an unrelated class
+            w.insert(len(w) - 1, "class Other:\n    v = 'other'\n")
+            w.append("    v = 1\n    def __new__(cls, kind=0):\n        if kind:\n            return Other()\n        return super().__new__(cls)\n")
+            if style == "factory_new_init":
+                w.append("    def __init__(self, kind=0):\n        self.v = 1\n")
         w.append(members)
     if child:
         cb = "Root"
@@ -386,6 +392,10 @@ def class_script(ns, style, child):
     if style == "init_args":
         rec("Root(5, w=6)", lambda: (Root(5, w=6).v, Root(5, w=6).w))
         rec("Root(v=3)", lambda: Root(v=3).v)
+    if style in ("factory_new", "factory_new_init"):
+        rec("Root(1)", lambda: (type(Root(1)).__name__, Root(1).v))
+        rec("Root(kind=1)", lambda: type(Root(kind=1)).__name__)
+        rec("Root(0)", lambda: (type(Root(0)).__name__, Root(0).v))
     if style in ("dataclass", "namedtuple"):
         rec("Root(4)", lambda: Root(4).v)
         rec("Root(v=4)", lambda: Root(v=4).v)
